@@ -86,7 +86,7 @@ def main():
             recs.append({"id": f"{item['gid']}:e{ei}:fact", "k": "fact", "ev": ev, "out": guarded(do_fact)})
         from y0.algorithm.counterfactual_transport.ancestor_utils import get_ancestral_components
         for ci, (ws, xs) in enumerate(item.get("comps", [])):
-            graph = build_graph(g, ci % 2)
+            graph = build_graph(g, ci % item.get("comp_orders", 2))
             wv = {de_var(dict(v, s=0)) for v in ws}
             xv = {de_var(dict(v, s=0)) for v in xs}
 
